@@ -139,9 +139,9 @@ func TestCheck(t *testing.T) {
 			Gen: gen,
 		},
 		Quick:        8,
-		Thorough:     240,
+		Thorough:     120,
 		BulkEvery:    8,
-		MinCuts:      [2]int64{800, 25000},
+		MinCuts:      [2]int64{800, 20000},
 		MinAutoRot:   1,
 		MinPurgeRemv: 2,
 	})
